@@ -23,7 +23,12 @@ fn dir_line(d: Directive, cond: Option<i64>) -> Document {
     Document::DirectiveLine(Box::new(None), d, DirectiveOps::OpList(ops))
 }
 
+/// condition values of the fixed-shape harnesses, indexed by line position (set by the harness;
+/// the line *text* stays concrete so that the class of every line is a constant for CBMC)
+pub static mut CONDS: [u8; 8] = [0; 8];
+
 /// Stub for the generated `document::document::line` (Kani only).
+/// "i0"/"i1"/"e0"/"e1": condition in the text; "I<pos>"/"E<pos>": condition in CONDS[pos].
 pub fn line_stub(input: &str) -> Result<Document, LineError> {
     let b = input.as_bytes();
     let c0 = if b.len() > 0 { b[0] } else { 0 };
@@ -31,6 +36,8 @@ pub fn line_stub(input: &str) -> Result<Document, LineError> {
     Ok(match c0 {
         b'i' => dir_line(Directive::If, Some((c1 == b'1') as i64)),
         b'e' => dir_line(Directive::ElIf, Some((c1 == b'1') as i64)),
+        b'I' => dir_line(Directive::If, Some(unsafe { CONDS[(c1 - b'0') as usize & 7] } as i64)),
+        b'E' => dir_line(Directive::ElIf, Some(unsafe { CONDS[(c1 - b'0') as usize & 7] } as i64)),
         b'l' => dir_line(Directive::Else, None),
         b'n' => dir_line(Directive::Endif, None),
         b'p' => {
@@ -48,7 +55,7 @@ pub fn no_include_stub(_c: &ParseContext) -> Result<(), failure::Error> {
 }
 
 pub const KINDS: [&str; 7] = ["i0", "i1", "e0", "e1", "l", "n", "p"];
-const PAYLOAD: [&str; 6] = ["pa", "pb", "pc", "pd", "pe", "pf"];
+const PAYLOAD: [&str; 8] = ["pa", "pb", "pc", "pd", "pe", "pf", "pg", "ph"];
 
 fn line_text(kind: u8, pos: usize) -> &'static str {
     match kind {
@@ -65,8 +72,8 @@ fn line_text(kind: u8, pos: usize) -> &'static str {
 /// Reference interpreter: which positions hold payload lines that must be assembled; None if
 /// the sequence is not a well-nested conditional structure (such sequences are assumed away).
 /// Frame = (some branch of this chain already taken, this branch active, .else seen).
-pub fn reference(kinds: &[u8], n: usize) -> Option<[bool; 6]> {
-    let mut out = [false; 6];
+pub fn reference(kinds: &[u8], n: usize) -> Option<[bool; 8]> {
+    let mut out = [false; 8];
     // explicit stack of depth <= 3
     let mut taken = [false; 3];
     let mut active = [false; 3];
@@ -131,7 +138,7 @@ pub fn reference(kinds: &[u8], n: usize) -> Option<[bool; 6]> {
 }
 
 struct Lines {
-    texts: [&'static str; 6],
+    texts: [&'static str; 8],
     n: usize,
     pos: usize,
 }
@@ -149,19 +156,81 @@ impl Iterator for Lines {
     }
 }
 
+/// Fixed *shape* (which line is an .if / .elif / .else / .endif / payload), symbolic condition
+/// values: the solver decides, for every truth assignment of the conditions, that exactly the
+/// payload lines of the selected branches are assembled.
+pub const SHAPES: [&[u8]; 8] = [
+    b"IPNP",     // .if c / a / .endif / b
+    b"IPLPN",    // .if c / a / .else / b / .endif
+    b"IPEPN",    // .if c1 / a / .elif c2 / b / .endif
+    b"IPEPLPNP", // .if c1 / a / .elif c2 / b / .else / c / .endif / d
+    b"IIPNPLPN", // nested .if inside the first branch
+    b"IPLIPNPN", // nested .if inside the .else branch
+    b"IPEPEPN",  // two .elif
+    b"IEPLPN",   // empty first branch
+];
+
+pub fn cond_shape<S: Src>(s: &mut S, shape: usize) {
+    let pat = SHAPES[shape];
+    let n = pat.len();
+    let mut kinds = [6u8; 8];
+    let mut texts: [&'static str; 8] = ["pa"; 8];
+    const IFS: [&str; 8] = ["I0", "I1", "I2", "I3", "I4", "I5", "I6", "I7"];
+    const ELIFS: [&str; 8] = ["E0", "E1", "E2", "E3", "E4", "E5", "E6", "E7"];
+    let mut i = 0;
+    while i < n {
+        match pat[i] {
+            b'I' => {
+                let c = s.below(2);
+                unsafe { CONDS[i] = c };
+                kinds[i] = c;
+                texts[i] = IFS[i];
+            }
+            b'E' => {
+                let c = s.below(2);
+                unsafe { CONDS[i] = c };
+                kinds[i] = 2 + c;
+                texts[i] = ELIFS[i];
+            }
+            b'L' => {
+                kinds[i] = 4;
+                texts[i] = "l";
+            }
+            b'N' => {
+                kinds[i] = 5;
+                texts[i] = "n";
+            }
+            _ => {
+                kinds[i] = 6;
+                texts[i] = PAYLOAD[i];
+            }
+        }
+        i += 1;
+    }
+    cond_run(s, 100 + shape as u32, kinds, texts, n);
+}
+
 pub fn cond_n<S: Src>(s: &mut S, n: usize) {
-    s.role(H_C08_COND, n as u32);
-    let mut kinds = [6u8; 6];
-    let mut texts: [&'static str; 6] = ["pa"; 6];
+    let mut kinds = [6u8; 8];
     let mut i = 0;
     while i < n {
         kinds[i] = s.below(7);
+        i += 1;
+    }
+    let mut texts: [&'static str; 8] = ["pa"; 8];
+    let mut i = 0;
+    while i < n {
         texts[i] = line_text(kinds[i], i);
         i += 1;
     }
+    cond_run(s, n as u32, kinds, texts, n);
+}
+
+fn cond_run<S: Src>(s: &mut S, role: u32, kinds: [u8; 8], texts: [&'static str; 8], n: usize) {
+    s.role(H_C08_COND, role);
     let want = reference(&kinds, n);
     s.assume(want.is_some());
-    let want = want.unwrap_or([false; 6]);
+    let want = want.unwrap_or([false; 8]);
     let ctx = ParseContext::new(
         std::path::PathBuf::new(),
         std::cell::RefCell::new(avra_lib::vmap::BTreeSet::new()),
@@ -179,7 +248,7 @@ pub fn cond_n<S: Src>(s: &mut S, n: usize) {
                 3 => ".elif 1",
                 4 => ".else",
                 5 => ".endif",
-                _ => ["pa:", "pb:", "pc:", "pd:", "pe:", "pf:"][i],
+                _ => ["pa:", "pb:", "pc:", "pd:", "pe:", "pf:", "pg:", "ph:"][i],
             });
             t.push('\n');
         }
@@ -196,7 +265,7 @@ pub fn cond_n<S: Src>(s: &mut S, n: usize) {
         avra_lib::parser::parse(&source_text, &ctx)
     };
     // which labels were assembled
-    let mut got = [false; 6];
+    let mut got = [false; 8];
     {
         let segs = ctx.segments.borrow();
         let mut si = 0;
@@ -206,7 +275,7 @@ pub fn cond_n<S: Src>(s: &mut S, n: usize) {
             while k < seg.items.len() {
                 if let Item::Label(name) = &seg.items[k].1 {
                     let c = name.as_bytes()[1];
-                    if c >= b'a' && c <= b'f' {
+                    if c >= b'a' && c <= b'h' {
                         got[(c - b'a') as usize] = true;
                     }
                 }
